@@ -237,6 +237,7 @@ CHECKS = {
     "C04": {
         "quick": [
             {"pkg": "v2", "entries": ["VerifC04Pair"], "params": {"N": 1}},
+            {"pkg": "v2", "entries": ["VerifC04Pair"], "params": {"N": 1, "RICH": 2}},
             {"pkg": "v2", "entries": ["VerifC04Precision"], "params": {"N": 1}, "extra": ["-solver", "cvc5"]},
         ],
         "thorough": [
@@ -244,6 +245,7 @@ CHECKS = {
             {"pkg": "v2", "entries": ["VerifC04Pair"], "params": {"N": 2, "KINDS": 5}},
             {"pkg": "v2", "entries": ["VerifC04Precision"], "params": {"N": 2}, "extra": ["-solver", "cvc5"]},
             {"pkg": "v2", "entries": ["VerifC04Pair"], "params": {"N": 1, "RICH": 1}},
+            {"pkg": "v2", "entries": ["VerifC04Pair"], "params": {"N": 2, "RICH": 2}},
         ],
         "covers": ["c04.pair.list", "c04.pair.set", "c04.pair.multiset", "c04.pair.setkeys", "c04.precision"],
         "outside": "arrays longer than N, strings other than 0/1/8 bytes, FNV collisions",
@@ -251,6 +253,7 @@ CHECKS = {
     "C05": {
         "quick": [
             {"pkg": "v2", "entries": ["VerifC05Flat"], "params": {"N": 2}},
+            {"pkg": "v2", "entries": ["VerifC05Flat"], "params": {"N": 3, "OPTS": 6}},
             {"pkg": "v2", "entries": ["VerifC05Nest"], "params": {"N": 1, "INNER": 2}},
             {"pkg": "v2", "entries": ["VerifC05Nest"], "params": {"N": 2, "INNER": 1}},
             {"pkg": "v2", "entries": ["VerifC05Docs"], "params": {"OPTS": 19}},
